@@ -330,6 +330,7 @@ def allocChecks (c : Cfg) (s : State) (k : Key) (lt : Attr Nat) (tr : Attr Nat) 
   | .absent | .bad => .error 400
   | .val t =>
     if t != 17 && t != 6 then .error 442
+    else if t == 6 && !(getLis c k.lid).stream then .error 400   -- RFC 6062 5.1: TCP allocations over TCP/TLS only
     else if df then .error 420
     else match tokRes s k.lid tok even with
       | .error code => .error code
